@@ -100,8 +100,56 @@ def _alarm(sig, frm):
     raise _Timeout()
 
 
+SEQUENCES = {
+    # gates that share a wrapper name ("Control", "Exponential", "Dagger", "...^2") evaluated one after another in ONE process:
+    # a result remembered under too coarse a key would leak from one gate into the next
+    "exp-of-controlled": [("num:X", ["c1"], "exp"), ("num:Z", ["c1"], "exp"), ("num:H", ["c1"], "exp"), ("num:X", ["c1"], "exp")],
+    "exp-of-power": [("num:X", ["pow(2)"], "exp"), ("num:Z", ["pow(3)"], "exp"), ("num:S", ["pow(2)"], "exp")],
+    "power-of-controlled": [("num:X", ["c1"], "pow(2)"), ("num:S", ["c1"], "pow(2)"), ("num:T", ["c1"], "pow(3)"), ("num:S", ["c1"], "pow(-1)")],
+    "dagger-of-controlled": [("num:S", ["c1"], "dagger"), ("num:T", ["c1"], "dagger"), ("num:RX(0.3)", ["c1"], "dagger"), ("num:S", ["c2"], "dagger")],
+    "controlled-of-exp": [("num:X", ["exp"], "c1"), ("num:Z", ["exp"], "c1"), ("num:S", ["exp"], "dagger")],
+    "same-params-different-gate": [("num:RX(0.3)", [], "exp"), ("num:RY(0.3)", [], "exp"), ("num:RZ(0.3)", [], "exp"), ("num:RX(0.3)", [], "pow(2)"), ("num:RY(0.3)", [], "pow(2)")],
+}
+
+
+def _work_seq(res, item):
+    res.d["ground_instances"] += 1
+    res.d["instances"] -= 1
+    for order in ("forward", "reverse"):
+        seq = SEQUENCES[item["seq"]] if order == "forward" else list(reversed(SEQUENCES[item["seq"]]))
+        for i, (bid, chain, mod) in enumerate(seq):
+            res.ob(1)
+            bad, detail = ground_check(bid, chain, mod)
+            if bad:
+                res.candidate("sequence-meaning", f"{mod} of {bid}|{'|'.join(chain)} evaluated as step {i} of sequence {item['seq']} ({order}): {detail}", {"seq": item["seq"], "clause": "sequence", "values": {}}, sub=f"{order}#{i}")
+                return
+            res.ob(0, 1, "ground-numeric")
+
+
+def seq_bad(name):
+    for order in ("forward", "reverse"):
+        seq = SEQUENCES[name] if order == "forward" else list(reversed(SEQUENCES[name]))
+        for i, (bid, chain, mod) in enumerate(seq):
+            bad, detail = ground_check(bid, chain, mod)
+            if bad:
+                return f"step {i} ({order}): {mod} of {bid}|{'|'.join(chain)}: {detail}"
+    return None
+
+
 def work(item):
     install_numpy_sympy_shim()
+    if "seq" in item:
+        res = Result(f"seq:{item['seq']}")
+        signal.signal(signal.SIGALRM, _alarm)
+        signal.alarm(item.get("timeout", 120))
+        try:
+            _work_seq(res, item)
+        except _Timeout:
+            res.ob(1)
+            res.inconc("timed out (sympy matrix function did not finish)")
+        finally:
+            signal.alarm(0)
+        return res.as_dict()
     bid, chain, mod = item["bid"], item["chain"], item["mod"]
     key = f"{bid}|{'|'.join(chain)}:{mod}"
     res = Result(key)
@@ -313,6 +361,8 @@ def instances(tier, seed=0):
                 if tier == "quick" and len(ch) == 1 and bid not in ("num:K3", "num:K2", "num:CDI", "num:CSYnum") and not stable_pick((bid, ch, mod), 4, seed):
                     continue
                 items.append({"bid": bid, "chain": list(ch), "mod": mod, "timeout": 15 if tier == "quick" else 60})
+    for name in SEQUENCES:
+        items.append({"seq": name, "bid": f"seq:{name}", "chain": [], "mod": "sequence"})
     return items
 
 
@@ -344,6 +394,9 @@ def run(ctx):
 def replay(data):
     install_numpy_sympy_shim()
     inp = data["inputs"]
+    if inp.get("clause") == "sequence":
+        bad = seq_bad(inp["seq"])
+        return bool(bad), bad or "sequence ok"
     bid, chain, mod, clause = inp["bid"], inp["chain"], inp["mod"], inp["clause"]
     vals = {k: float(v) for k, v in (inp.get("values") or {}).items()}
     try:
